@@ -4,7 +4,7 @@
 # Usage: selftest/run.sh [pattern]   exit 0 = every mutant detected (and the clean ones stayed clean)
 set -u
 cd "$(dirname "$0")/.."
-export GOFLAGS=-mod=mod GOPROXY=off GOSUMDB=off GOTOOLCHAIN=local
+export GOVC_NO_BATTERY=1 GOFLAGS=-mod=mod GOPROXY=off GOSUMDB=off GOTOOLCHAIN=local
 pat="${1:-}"
 fail=0; n=0; skipped=0
 while IFS=$'\t' read -r patch prop expect clean; do
